@@ -315,8 +315,23 @@ def build_runner(race=False, module="harness", exe_name="runner"):
         return rc == 0, out, exe
 
 
-def run_runner(exe, component, cases, timeout=600, env=None):
-    """Feed cases (list of dicts) to the runner; returns (list of obs dicts, error-text-or-None)."""
+def run_runner(exe, component, cases, timeout=600, env=None, procs=1):
+    """Feed cases (list of dicts) to the runner; returns (list of obs dicts, error-text-or-None).
+    procs > 1: the cases are dealt out to that many runner processes working side by side."""
+    if procs > 1 and len(cases) > 1:
+        from concurrent.futures import ThreadPoolExecutor
+        chunks = [cases[i::procs] for i in range(procs) if cases[i::procs]]
+        with ThreadPoolExecutor(len(chunks)) as ex:
+            res = list(ex.map(lambda ch: run_runner(exe, component, ch, timeout, env), chunks))
+        obs = [o for r in res for o in (r[0] or [])]
+        errs = [r[1] for r in res if r[1]]
+        by_id = {o.get("id"): o for o in obs}
+        ordered = []
+        for c in cases:                   # observations up to the first missing one, in case order
+            if c["id"] not in by_id:
+                break
+            ordered.append(by_id[c["id"]])
+        return ordered, (errs[0] if errs else None)
     inp = "".join(json.dumps(c) + "\n" for c in cases)
     for attempt in range(3):
         try:
@@ -624,9 +639,11 @@ class Ctx:
         known_hit = {}
         seen = set()
         for v in self.violations:
-            k = next((k for k in self.known if k.get("status", "known") == "known" and k.get("signature") == v["signature"]), None)
+            # the same finding met in the patience pass of a part carries the part's name with a "~patience" suffix
+            base_sig = v["signature"].replace("~patience:", ":", 1)
+            k = next((k for k in self.known if k.get("status", "known") == "known" and k.get("signature") == base_sig), None)
             if k is not None:
-                known_hit.setdefault(v["signature"], (k, v))
+                known_hit.setdefault(base_sig, (k, v))
                 continue
             if v["signature"] in seen:
                 continue
@@ -707,17 +724,65 @@ def load_corpus(pid, sub=None):
     return res
 
 
+THOROUGH_ROUNDS = int(os.environ.get("VERIF_THOROUGH_ROUNDS", 8))
+
+
+def _merge_acc(a, b):
+    """Merge two distribution dicts: numbers add up (keys starting with max/min take the extreme), dicts recurse."""
+    for k, v in b.items():
+        if k not in a:
+            a[k] = v
+        elif isinstance(v, dict) and isinstance(a[k], dict):
+            _merge_acc(a[k], v)
+        elif isinstance(v, (int, float)) and isinstance(a[k], (int, float)) and not isinstance(v, bool):
+            a[k] = max(a[k], v) if str(k).startswith("max") else min(a[k], v) if str(k).startswith("min") else a[k] + v
+        elif isinstance(v, list) and isinstance(a[k], list):
+            a[k] = (a[k] + v)[:50]
+    return a
+
+
 def seq_differential(ctx, spec, exe, proofs_ok, tag=None, scale=1.0):
-    """Run the correspondence + oracle protocol for one sequential component.
-    Adds coverage under ctx.coverage['parts'][tag]. Records violations in ctx."""
+    """Run the correspondence + oracle protocol for one component. The thorough tier generates its (much larger)
+    case set in rounds, so that neither this process nor the coqc shards hold all of it at once."""
     tag = tag or spec.component
+    rounds = THOROUGH_ROUNDS if ctx.tier == "thorough" and not getattr(spec, "single_round", False) else 1
+    if rounds <= 1:
+        part = _seq_differential_once(ctx, spec, exe, proofs_ok, tag, scale, True, procs=getattr(spec, "procs", 1))
+        part.pop("_distinct", None)
+        return part
+    total, distinct = None, set()
+    nviol = len(ctx.violations)
+    for r in range(rounds):
+        part = _seq_differential_once(ctx, spec, exe, proofs_ok, tag, scale / rounds, r == 0, procs=getattr(spec, "procs", 1))
+        distinct |= part.pop("_distinct", set())
+        if total is None:
+            total = part
+        else:
+            for k in ("evaluations", "corpus_cases", "ops_total", "oracle_failures", "coq_eval_s"):
+                if k in part:
+                    total[k] = round(total.get(k, 0) + part[k], 1)
+            _merge_acc(total.setdefault("model_disagreements", {}), part.get("model_disagreements", {}))
+            _merge_acc(total.setdefault("distribution", {}), part.get("distribution", {}))
+        if len(ctx.violations) > nviol:
+            break
+    total["distinct_nontrivial"] = len(distinct)
+    total["rounds"] = r + 1
+    ctx.coverage["parts"][tag] = total
+    return total
+
+
+def _seq_differential_once(ctx, spec, exe, proofs_ok, tag, scale, with_corpus, env=None, procs=1, limit=None, gen_tier=None,
+                           ctag=None, cases_override=None):
+    """tag: name of the coverage part and prefix of violation signatures; ctag: corpus directory (default tag)."""
     part = {}
     ctx.coverage.setdefault("parts", {})[tag] = part
-    corpus = [dict(c) for c in load_corpus(ctx.pid, tag)]
-    cases = corpus + spec.gen(ctx.rng, ctx.tier, scale)
+    corpus = [dict(c) for c in load_corpus(ctx.pid, ctag or tag)] if with_corpus else []
+    cases = corpus + (cases_override if cases_override is not None else spec.gen(ctx.rng, gen_tier or ctx.tier, scale))
+    if limit is not None:
+        cases = cases[:limit]
     for i, c in enumerate(cases):
         c["id"] = i
-    obs, err = run_runner(exe, spec.component, cases)
+    obs, err = run_runner(exe, spec.component, cases, env=env, procs=procs, timeout=600 if env is None else 3000)
     if err is not None or obs is None or len(obs) != len(cases):
         # a crash/hang of the implementation on a generated input: find the first case lacking an observation
         k = len(obs or [])
@@ -758,7 +823,7 @@ def seq_differential(ctx, spec, exe, proofs_ok, tag=None, scale=1.0):
     def rerun(ops_case):
         cc = dict(ops_case)
         cc["id"] = 0
-        ob, e = run_runner(exe, spec.component, [cc], timeout=120)
+        ob, e = run_runner(exe, spec.component, [cc], timeout=120 if env is None else 900, env=env)
         if e or not ob:
             return None
         return ob[0]
@@ -814,10 +879,12 @@ def seq_differential(ctx, spec, exe, proofs_ok, tag=None, scale=1.0):
         # failing-input search: the oracle already ran on every case of this run and found nothing for this case;
         # escalate with fresh cases (oracle only, cheap) before giving up
         found = None
-        extra = spec.gen(random.Random(ctx.seed + 7919), ctx.tier, scale * 4)
+        extra = spec.gen(random.Random(ctx.seed + 7919), gen_tier or ctx.tier, scale * 4)
         for i, c in enumerate(extra):
             c["id"] = i
-        eobs, eerr = run_runner(exe, spec.component, extra)
+        # (a run with a special environment, e.g. patience mode, takes seconds per scenario: the search then runs the
+        # fresh cases in the normal mode only)
+        eobs, eerr = run_runner(exe, spec.component, extra, procs=max(procs, 1))
         if eobs and not eerr:
             if hasattr(spec, "post_run"):
                 spec.post_run(extra, {o["id"]: o for o in eobs})
@@ -840,6 +907,7 @@ def seq_differential(ctx, spec, exe, proofs_ok, tag=None, scale=1.0):
         "evaluations": len(cases),
         "corpus_cases": len(corpus),
         "distinct_nontrivial": len(distinct),
+        "_distinct": distinct,
         "ops_total": sum(len(c.get("ops", [])) for c in cases),
         "model_disagreements": {k: len(v) for k, v in corr_fail.items()},
         "oracle_failures": len(oracle_fail),
@@ -847,6 +915,73 @@ def seq_differential(ctx, spec, exe, proofs_ok, tag=None, scale=1.0):
         "sample": {"case": cases[len(corpus)] if len(cases) > len(corpus) else cases[0],
                    "impl_observations": obs_by_id[cases[len(corpus)]["id"] if len(cases) > len(corpus) else 0].get("obs")},
     })
+    return part
+
+
+PATIENCE_MS = int(os.environ.get("VERIF_PATIENCE", 5500))
+
+
+def _pending_groups(obs):
+    """The sets of API calls in flight (called, not yet returned) at the quiescence points of a recorded history."""
+    pend, groups = {}, set()
+    for e in obs.get("obs", []):
+        if not (isinstance(e, list) and e and isinstance(e[0], str)):
+            continue
+        n = e[0]
+        if n == "call" or n.startswith("call-"):
+            k = n.split("-", 1)[1] if "-" in n else ""
+            pend[k] = pend.get(k, 0) + 1
+        elif n == "ret" or n.startswith("ret-"):
+            k = n.split("-", 1)[1] if "-" in n else ""
+            if pend.get(k, 0) > 0:
+                pend[k] -= 1
+        elif n == "quiesce":
+            g = frozenset(k for k, v in pend.items() if v > 0)
+            if g:
+                groups.add(g)
+    return groups
+
+
+def patience_part(ctx, spec, exe, proofs_ok, tag=None, ncases=32, ms=None):
+    """Concurrent components, thorough tier (and the search after a broken obligation): some scenarios are run once more
+    with the harness in patience mode - at every quiescence point it waits `ms` and requires that nothing moved. A
+    call that gives up, reports an end or stops waiting for its workers after some seconds by itself (a hidden timer)
+    produces events the model has no transition for, i.e. a concrete history to report. The scenarios are chosen from a
+    quick-size set after a normal run of it: those in which API calls are parked at quiescence points, spread over the
+    different sets of parked calls."""
+    tag = tag or spec.component
+    ms = ms or PATIENCE_MS
+    rng = random.Random(ctx.seed * 31 + 5)
+    cand = spec.gen(rng, "quick", 1.0)
+    for i, c in enumerate(cand):
+        c["id"] = i
+    obs, err = run_runner(exe, spec.component, cand, procs=NPROC)
+    by_group = {}
+    for o in (obs or []):
+        for g in _pending_groups(o):
+            by_group.setdefault(g, []).append(o["id"])
+    chosen, seen = [], set()
+    lists = [by_group[g] for g in sorted(by_group, key=lambda g: sorted(g))]
+    for l in lists:
+        rng.shuffle(l)
+    while len(chosen) < ncases and any(lists):
+        for l in lists:
+            while l:
+                i = l.pop()
+                if i not in seen:
+                    seen.add(i)
+                    chosen.append(dict(cand[i]))
+                    break
+            if len(chosen) >= ncases:
+                break
+    if not chosen:
+        chosen = [dict(c) for c in cand[:ncases]]
+    env = dict(os.environ, VERIF_PATIENCE_MS=str(ms))
+    ptag = tag + "~patience"
+    part = _seq_differential_once(ctx, spec, exe, proofs_ok, ptag, 1.0, False, env=env, procs=NPROC, cases_override=chosen)
+    part.pop("_distinct", None)
+    part["patience_ms"] = ms
+    part["parked_call_sets_covered"] = sorted("+".join(sorted(g)) for g in by_group)
     return part
 
 
@@ -890,7 +1025,9 @@ def generic_replay(ctx, mod, path):
     body = json.load(open(path if os.path.isabs(path) else os.path.join(ROOT, path)))
     rep = body.get("replay", {})
     sig = body.get("signature", "")
-    tag = sig.split(":", 1)[0]
+    tag_full = sig.split(":", 1)[0]
+    tag = tag_full.split("~")[0]
+    renv = dict(os.environ, VERIF_PATIENCE_MS=str(PATIENCE_MS)) if tag_full.endswith("~patience") else None
     specs = getattr(mod, "SPECS", {})
     print("replaying %s (%s)" % (path, sig))
     if "case" not in rep or rep["case"] is None or tag not in specs:
@@ -906,7 +1043,7 @@ def generic_replay(ctx, mod, path):
         print("harness does not build:\n" + out[-2000:])
         sys.exit(1)
     case = dict(rep["case"], id=0)
-    obs, err = run_runner(exe, spec.component, [case], timeout=300)
+    obs, err = run_runner(exe, spec.component, [case], timeout=300 if renv is None else 1800, env=renv)
     if err or not obs:
         print("implementation run failed: %s" % err)
         sys.exit(1)
